@@ -4,6 +4,7 @@ import (
 	"context"
 	"fmt"
 	"strings"
+	"testing/fstest"
 	"time"
 
 	"github.com/luthersystems/elps/lisp"
@@ -471,7 +472,14 @@ func c04OtherLimits(w *fw.W, idx int) {
 		if n < 0 {
 			n = 0
 		}
-		src := fmt.Sprintf("(defun spin (n) (if (<= n 0) 'done (spin (- n 1))))\n(handler-bind ((condition (lambda (c &rest a) 'caught))) (spin %d))\n", n)
+		// the loop as such; with a body that calls 25 frames deep on every turn; started at
+		// the bottom of a 40-frame call chain (the stack grows while the loop's frame is live)
+		defs := []string{
+			"(defun spin (n) (if (<= n 0) 'done (spin (- n 1))))",
+			"(defun deep (k) (if (<= k 0) 0 (+ 1 (deep (- k 1)))))\n(defun spin (n) (deep 25) (if (<= n 0) 'done (spin (- n 1))))",
+			"(defun spin0 (n) (if (<= n 0) 'done (spin0 (- n 1))))\n(defun start (k n) (if (<= k 0) (spin0 n) (identity (start (- k 1) n))))\n(defun spin (n) (start 40 n))",
+		}[lim%3]
+		src := fmt.Sprintf("%s\n(handler-bind ((condition (lambda (c &rest a) 'caught))) (spin %d))\n", defs, n)
 		rr := rt.New(rt.Opts{MaxTail: lim})
 		t := rr.Run("c04", src)
 		after := rr.Run("usable", c04Usable)
@@ -593,10 +601,10 @@ func c04OtherLimits(w *fw.W, idx int) {
 	// a load called from any environment (top level, let, function, callback, handler)
 	// is cancelled like the evaluation that called it
 	for _, shape := range []string{"%s", "(let ((x 1)) %s)", "(progn (defun f () %s 1) (f))", "(map () (lambda (x) %s) '(1))", "(flet ((g () %s)) (g))", "(handler-bind ((my-err (lambda (c &rest a) 0))) %s)"} {
-		for _, loader := range []string{`(load-string "(dotimes (i 5000) (verif:probe 'in i))")`, `(load-bytes (to-bytes "(dotimes (i 5000) (verif:probe 'in i))"))`} {
+		for _, loader := range []string{`(load-string "(dotimes (i 5000) (verif:probe 'in i))")`, `(load-bytes (to-bytes "(dotimes (i 5000) (verif:probe 'in i))"))`, `(load-file "inner/loop.lisp")`} {
 			src := fmt.Sprintf(shape, loader)
 			for _, k := range []int{30, 200} {
-				r5 := rt.New(rt.Opts{})
+				r5 := rt.New(rt.Opts{Library: c04Library()})
 				t5 := r5.RunCtx(newScriptedCtx(k), "nl", src)
 				w.Eval(1)
 				if !t5.IsErr || t5.Cond != "context-cancelled" || len(t5.Trace) >= k {
@@ -605,6 +613,25 @@ func c04OtherLimits(w *fw.W, idx int) {
 				}
 				w.CoverKey(fmt.Sprintf("nested-load-cancel|%s|%s|k=%d", shape, loader[:12], k))
 			}
+		}
+	}
+	// the host enters through the file-loading entry points under a context
+	for _, entry := range []string{"LoadFileContext", "LoadFileContext-nested"} {
+		for _, k := range []int{30, 200} {
+			r7 := rt.New(rt.Opts{Library: c04Library()})
+			tf, ef := r7.Marks()
+			file := "inner/loop.lisp"
+			if entry == "LoadFileContext-nested" {
+				file = "outer.lisp"
+			}
+			v := r7.Env.LoadFileContext(newScriptedCtx(k), file)
+			t7 := r7.TranscriptOf(v, tf, ef)
+			w.Eval(1)
+			if !t7.IsErr || t7.Cond != "context-cancelled" || len(t7.Trace) >= k {
+				w.Violation("file-load-ignores-cancellation:"+entry, fmt.Sprintf("cancel at step %d: %s %s after %d loop turns", k, t7.Outcome(), t7.Msg, len(t7.Trace)), file)
+				return
+			}
+			w.CoverKey(fmt.Sprintf("file-load-cancel|%s|k=%d", entry, k))
 		}
 	}
 	// empty dotimes under cancellation at step k
@@ -619,6 +646,14 @@ func c04OtherLimits(w *fw.W, idx int) {
 		}
 		w.CoverKey(fmt.Sprintf("empty-dotimes-cancel|k=%d", k))
 	}
+}
+
+// c04Library: an in-memory source library with a file that loops and a file that loads it.
+func c04Library() lisp.SourceLibrary {
+	return &lisp.FSLibrary{FS: fstest.MapFS{
+		"inner/loop.lisp": {Data: []byte("(dotimes (i 5000) (verif:probe 'in i))\n")},
+		"outer.lisp":      {Data: []byte("(defun ld () (load-file \"inner/loop.lisp\") 1)\n(let ((x 1)) (ld))\n")},
+	}}
 }
 
 // c04DoneCtx cancels itself as soon as somebody asks for Done().
